@@ -130,6 +130,11 @@ func (repo *Repository) GitCommand(callerArgs ...string) *exec.Cmd {
 		// want to set the grafts file to `/dev/null` below (to
 		// disable grafts even where they are supported):
 		"-c", "advice.graftFileDeprecated=false",
+
+		// `--no-replace-objects` is overridden by an explicit
+		// `core.useReplaceRefs=true` in the repository's or user's
+		// configuration, so switch that off, too:
+		"-c", "core.useReplaceRefs=false",
 	}
 
 	args = append(args, callerArgs...)
